@@ -903,6 +903,10 @@ func (m *repoManager) newUUID(assign *dvid.UUID) (dvid.UUID, dvid.VersionID, err
 		uuid = *assign
 	}
 	m.idMutex.Lock()
+	if _, found := m.uuidToVersion[uuid]; found {
+		m.idMutex.Unlock()
+		return dvid.NilUUID, 0, ErrExistingUUID
+	}
 	curid := m.versionID
 	m.versionToUUID[curid] = uuid
 	m.uuidToVersion[uuid] = curid
